@@ -8,6 +8,7 @@ pub mod c27;
 pub mod c28;
 pub mod c29;
 pub mod c41;
+pub mod kes;
 pub mod c42;
 pub mod c43;
 pub mod wire;
@@ -17,6 +18,8 @@ use crate::core::CheckDef;
 pub fn lookup(id: &str) -> Option<CheckDef> {
     Some(match id {
         "C09" => c09::def(),
+        "C12" => kes::def_c12(),
+        "C13" => kes::def_c13(),
         "C20" => c20::def(),
         "C21" => wire::def_c21(),
         "C22" => wire::def_c22(),
@@ -34,4 +37,4 @@ pub fn lookup(id: &str) -> Option<CheckDef> {
     })
 }
 
-pub const ALL: &[&str] = &["C09", "C20", "C21", "C22", "C23", "C24", "C25", "C26", "C27", "C28", "C29", "C41", "C42", "C43"];
+pub const ALL: &[&str] = &["C09", "C12", "C13", "C20", "C21", "C22", "C23", "C24", "C25", "C26", "C27", "C28", "C29", "C41", "C42", "C43"];
